@@ -370,12 +370,15 @@ func (g *hgen) lenOf(i int) int { return len(g.m.S[i].Elems) }
 
 // plain value: unique string mostly, sometimes a number or bool
 func (g *hgen) plain() Val {
-	switch g.r.Intn(8) {
+	switch g.r.Intn(10) {
 	case 0:
 		g.uniq++
 		return vInt(1000 + g.uniq)
 	case 1:
 		return vBool(g.r.Bool(0.5))
+	case 2:
+		// zero-valued elements are elements like any other
+		return []Val{vInt(0), vStr(""), vBool(false), {K: "f", I: 0}, vInt(-7), {K: "f", I: 10}}[g.r.Intn(6)]
 	}
 	return g.uv()
 }
